@@ -202,9 +202,34 @@ def splits(run, m, F, E, L):
                 if len(pc) != 1 or not (isinstance(pc[0][2], PtrV) and pc[0][2].obj == sto.obj and s2.is_eq0(pc[0][2].off - bv.off) is True and
                                         isinstance(pc[0][3], IntV) and s2.is_eq0(I.as_u(s2, pc[0][3]) - (mt[1] - bv.off)) is True):
                     p4.append('piece of an iteration is not [cursor, match)')
-                dec = [c for c in cnt if isinstance(c[2], IntV) and s2.is_eq0(I.as_u(s2, c[1]) - I.as_u(s2, c[2]) - 1) is True]
-                if not dec:
-                    p4.append('max_splits is not decremented once per piece')
+                # the budget of splits: some carried integer M with M == max_splits on entry, M >= 1 in an iteration that cuts, and
+                # M - 1 afterwards - whether spelled as a countdown of max_splits or as a counter running up to it
+                hk = [k for k in s2.flags if isinstance(k, str) and k.startswith('hentry:' + f.name + ':')]
+                ent = s2.flags.get(hk[-1]) if hk else {}
+                budget_ok, moved = False, False
+                for (nm2, bv2, ev2) in cnt:
+                    if not isinstance(ev2, IntV):
+                        continue
+                    b0, e0 = I.as_u(s2, bv2), I.as_u(s2, ev2)
+                    if b0 is None or e0 is None:
+                        continue
+                    if s2.is_eq0(e0 - b0) is not True:
+                        moved = True
+                    en = ent.get(nm2)
+                    en0 = I.as_u(s2, en) if isinstance(en, IntV) else None
+                    if s2.is_eq0(b0 - e0 - 1) is True:          # countdown
+                        M, M0 = b0, en0
+                    elif s2.is_eq0(e0 - b0 - 1) is True:        # counter
+                        M, M0 = mx.lin - b0, (mx.lin - en0) if en0 is not None else None
+                    else:
+                        continue
+                    if M0 is not None and s2.is_eq0(M0 - mx.lin) is True and s2.is_ge0(M - 1) is True:
+                        budget_ok = True
+                if not budget_ok:
+                    if not moved:
+                        p4.append('nothing counts the pieces of an iteration: max_splits cannot limit them')
+                    else:
+                        und.append('no carried integer recognised as the split budget (max_splits on entry, one less per piece, positive when cutting)')
             elif o.kind == 'ret':
                 pc = [e for e in s2.events if e[0] == 'piece']
                 if pc:
